@@ -109,7 +109,7 @@ type c05Builder struct {
 func (b *c05Builder) gen(depth int) *c05Node {
 	k := "leaf"
 	if depth > 0 {
-		k = rapid.SampledFrom([]string{"leaf", "leaf", "tee", "tee", "inc", "hook", "sampler", "lazy", "with"}).Draw(b.t, "nodeKind")
+		k = rapid.SampledFrom([]string{"leaf", "leaf", "tee", "tee", "inc", "hook", "sampler", "dropper", "lazy", "with"}).Draw(b.t, "nodeKind")
 	}
 	b.next++
 	n := &c05Node{id: b.next, kind: k}
@@ -185,6 +185,15 @@ func (n *c05Node) deliver(l zapcore.Level, reached bool, leaves, hooks, samp map
 			samp[n.id]++
 		}
 		return n.kids[0].deliver(l, on, leaves, hooks, samp)
+	case "dropper":
+		// a sampler with an empty budget: it decides for every in-range entry its wrapped core enables - and drops
+		// it. Nothing below receives the entry; whatever accepted it elsewhere in the tree keeps it.
+		on := reached && n.kids[0].enabled(l)
+		if on && l >= zapcore.DebugLevel && l <= zapcore.FatalLevel {
+			samp[n.id]++
+			return n.kids[0].deliver(l, false, leaves, hooks, samp)
+		}
+		return n.kids[0].deliver(l, on, leaves, hooks, samp)
 	default:
 		return n.kids[0].deliver(l, reached, leaves, hooks, samp)
 	}
@@ -211,6 +220,18 @@ func (n *c05Node) build0(t *rapid.T) zapcore.Core {
 		for _, k := range n.kids {
 			cs = append(cs, k.build(t))
 		}
+		// the caller's list may hold cores that enable nothing (a tee may want to leave them out) and is the
+		// caller's to use again: the tee is built twice from it and the list must be as it was
+		if at := rapid.IntRange(-2, len(cs)).Draw(t, "nopCoreAt"); at >= 0 {
+			cs = append(cs[:at:at], append([]zapcore.Core{zapcore.NewNopCore()}, cs[at:]...)...)
+		}
+		callers := append([]zapcore.Core(nil), cs...)
+		_ = zapcore.NewTee(cs...)
+		for i := range cs {
+			if !sameIface(cs[i], callers[i]) {
+				t.Fatalf("NewTee rearranged the caller's list of cores: element %d of %d is now %T", i, len(cs), cs[i])
+			}
+		}
 		return zapcore.NewTee(cs...)
 	case "inc":
 		child := n.kids[0].build(t)
@@ -234,11 +255,25 @@ func (n *c05Node) build0(t *rapid.T) zapcore.Core {
 		child := n.kids[0].build(t)
 		cnt := new(int)
 		n.hookN = cnt
-		return zapcore.RegisterHooks(child, func(zapcore.Entry) error { *cnt++; return nil })
+		// hooks handed over by spreading a slice the caller goes on using (e.g. to assemble the next core): the
+		// core keeps running the hooks it was registered with
+		hs := []func(zapcore.Entry) error{func(zapcore.Entry) error { *cnt++; return nil }, func(zapcore.Entry) error { return nil }}
+		hc := zapcore.RegisterHooks(child, hs...)
+		for i := range hs {
+			hs[i] = func(zapcore.Entry) error {
+				*cnt += 1000 // a hook registered LATER in the recycled slice: never this core's
+				return nil
+			}
+		}
+		return hc
 	case "sampler":
 		cnt := new(int)
 		n.sampN = cnt
 		return zapcore.NewSamplerWithOptions(n.kids[0].build(t), time.Hour, 1<<30, 0, zapcore.SamplerHook(func(zapcore.Entry, zapcore.SamplingDecision) { *cnt++ }))
+	case "dropper":
+		cnt := new(int)
+		n.sampN = cnt
+		return zapcore.NewSamplerWithOptions(n.kids[0].build(t), time.Hour, 0, 0, zapcore.SamplerHook(func(zapcore.Entry, zapcore.SamplingDecision) { *cnt++ }))
 	case "lazy":
 		return zapcore.NewLazyWith(n.kids[0].build(t), []zapcore.Field{zap.Int("lazy", n.id)})
 	default:
